@@ -23,14 +23,43 @@ CHECK_FUNCS = {"onnx.checker.check_model"}
 
 
 class Fn:
-    def __init__(self, fn: ast.FunctionDef, known: dict, callee_names=()):
+    def __init__(self, fn: ast.FunctionDef, known: dict, callee_names=(), siblings=None, base=0, depth=0):
         self.fn = fn
         self.known = known  # parameter name -> python constant (value at the call site)
         self.vars: dict[str, int] = {}
         self.callee_names = set(callee_names)
+        self.siblings = siblings or {}  # methods of the same class: name -> FunctionDef (for tail calls)
+        self.base = base  # variable ids of an inlined helper live in their own range
+        self.depth = depth
 
     def vid(self, name: str) -> int:
-        return self.vars.setdefault(name, len(self.vars))
+        return self.base + self.vars.setdefault(name, len(self.vars))
+
+    def tail_call(self, call: ast.Call):
+        """`return self.helper(...)`: the helper's own paths are the caller's paths (inlined one level per
+        helper, at most 3 deep). Parameters bound to constants / known parameters stay known."""
+        if not (isinstance(call.func, ast.Attribute) and isinstance(call.func.value, ast.Name)
+                and call.func.value.id == "self" and call.func.attr in self.siblings and self.depth < 3):
+            return None
+        callee = self.siblings[call.func.attr]
+        known = _defaults(callee)
+        params = [a.arg for a in callee.args.posonlyargs + callee.args.args]
+        if params and params[0] == "self":
+            params = params[1:]
+        bound = dict(zip(params, call.args))
+        for kw in call.keywords:
+            if kw.arg is None:
+                return None
+            bound[kw.arg] = kw.value
+        for name, val in bound.items():
+            if isinstance(val, ast.Constant):
+                known[name] = val.value
+            elif isinstance(val, ast.Name) and val.id in self.known:
+                known[name] = self.known[val.id]
+            else:
+                known.pop(name, None)
+        sub = Fn(callee, known, self.callee_names, self.siblings, base=self.base + 100, depth=self.depth + 1)
+        return sub.extract()
 
     # -- which local names does an expression possibly change?
     def touched(self, e: ast.AST, skip_check=True) -> list[str]:
@@ -80,6 +109,10 @@ class Fn:
         if isinstance(s, ast.Pass):
             return []
         if isinstance(s, ast.Return):
+            if isinstance(s.value, ast.Call):
+                inl = self.tail_call(s.value)
+                if inl is not None:
+                    return inl
             pre = [("touch", self.vid(n)) for n in self.touched(s.value) if self.is_local(n)] if s.value else []
             if isinstance(s.value, ast.Name):
                 return pre + [("ret", self.vid(s.value.id))]
@@ -227,7 +260,11 @@ def extract():
         known = {}
     info["n_calls"] = len(calls)
     info["known_params"] = {k: known[k] for k in sorted(known)}
-    to_ir = Fn(tom, known).extract() if tom else [("other",)]
+    siblings = {}
+    for n in gmod.body:
+        if isinstance(n, ast.ClassDef) and n.name == "Graph":
+            siblings = {m.name: m for m in n.body if isinstance(m, ast.FunctionDef)}
+    to_ir = Fn(tom, known, siblings=siblings).extract() if tom else [("other",)]
     b_ir = Fn(bld, {}, callee_names=["to_onnx_model"]).extract() if bld else [("other",)]
     # informational constants
     full = None
